@@ -439,6 +439,13 @@ func (w *Writer) dumpObjectIndex() error {
 		}
 		last = k
 	}
+	if maxCommon+1 >= 1<<5 {
+		// The footer has 5 bits for the length of the abbreviated
+		// object IDs. SHA-256 IDs that agree in their first 31 bytes
+		// cannot be told apart by an abbreviation that fits: leave out
+		// the object index, RefsFor then scans the refs.
+		return nil
+	}
 	w.Stats.ObjectIDLen = maxCommon + 1
 
 	w.blockWriter = w.newBlockWriter(blockTypeObj)
